@@ -943,7 +943,12 @@ func (st *cliState) literalClause(s string, exp cls) {
 	st.w.Nontrivial(1)
 	lines := strings.Split(strings.TrimSpace(r.Stdout), "\n")
 	rep := map[string]any{"program": prog, "expected": exp.String(), "stdout": r.Stdout, "stderr": r.Stderr, "exit": r.Exit, "reproduce": "mlr -n put '" + prog + "'"}
-	if !r.OK() || len(lines) != 2 || strings.Contains(r.Stderr, "nternal coding error") {
+	ice := strings.Contains(r.Stderr, "nternal coding error")
+	if exp.kind == kFree && !ice && r.Panic == "" && r.Exit == 1 && strings.Contains(r.Stderr, "mlr:") {
+		st.pos["dsl-literal-rejected-cleanly"]++
+		return // no documented value: an ordinary mlr: error is an acceptable answer, an internal-error abort is not
+	}
+	if !r.OK() || len(lines) != 2 || ice {
 		what := fmt.Sprintf("as a DSL literal: exit %d, stdout %q, stderr %q %s; documented grammar: %s", r.Exit, r.Stdout, strings.TrimSpace(r.Stderr), r.Panic, exp)
 		grp := "literal"
 		if exp.kind == kFree {
